@@ -132,6 +132,11 @@ func (c *Conversation) maybeRetransmit() ([]messageWithHeader, error) {
 		return nil, nil
 	}
 
+	// the texts can only go out over an encrypted session; until there is one they stay queued
+	if c.msgState != encrypted {
+		return nil, nil
+	}
+
 	return c.retransmit()
 }
 
